@@ -440,6 +440,9 @@ class Ctx(object):
         passed to the caller as list of (path, value).  In concrete mode: single run."""
         if not self.sym:
             return [(None, fn())]
+        if getattr(self, 'explorer', None) is not None:
+            # already inside an (automatic, whole-scenario) exploration: the enclosing explorer forks for this block too
+            return [(None, fn())]
         from .explore import Explorer
         ex = Explorer(timeout_ms=min(self.timeout_ms, 20000), cap=cap)
         base = list(self.assumptions)
